@@ -10,7 +10,8 @@
       - `nodeSubnetsByRangesP`  (seed of the running intersection in `NodeSubnetsByIPRanges`),
       - `ownedSubnetsP`         (seed / guard of the owned-address intersection in `getSubnet`),
       - `pickRangesP`           (`AllocateInSubnetsAndIPRange`: a non-matching address continues / ends the walk),
-      - `toHInfoP`              (`toFloatingIPInfo`: ipinfo from the address' own pool / from the first pool).
+      - `toHInfoP`              (`toFloatingIPInfo`: ipinfo from the address' own pool / from the first pool),
+      - `choiceIsMin`           (`ByKeyAndIPRanges(key, nil)` sorted ascending / Go map order).
     `Galaxy/Lemmas/C06Facts.lean` proves that at the values the current source has, they ARE the model's functions;
     the `_counter` theorems of `Props/C06.lean` show what breaks at the other values.
   Core Lean only.
@@ -179,5 +180,22 @@ def toHInfoP (ownPool : Bool) (s : State) (ip : IP) : HInfo :=
     { ip := ip, bits := p.bits, vlan := p.vlan,
       gw := if ownPool then p.gateway else (s.pools.head?.map (·.gateway)).getD 0 }
   | none => { ip := ip, bits := 0, gw := 0, vlan := 0 }
+
+/-! ## Admissibility refinement: the "first owned address" under a sorted `ByKeyAndIPRanges(key, nil)` -/
+
+/-- the lowest address of a list -/
+def minIP : List IP → Option IP
+  | [] => none
+  | x :: t => match minIP t with
+    | none => some x
+    | some m => some (if x ≤ m then x else m)
+
+/-- Refinement of the model's admissibility test for `Choice.first` (which accepts ANY address of the key, = Go map
+    order): if `ByKeyAndIPRanges(key, nil)` returns the key's addresses sorted ascending (`sorted`, regenerated fact
+    `byKeyNoRangesSorted`), the address that `ipInfos[0]` (getSubnet) / `ipInfos[:1]` (allocateIP) denote for a pod
+    without requested ranges is the LOWEST address of the key.  Vacuous with ranges, or when the key owns nothing. -/
+def choiceIsMin (sorted : Bool) (s : State) (pod : Pod) (ch : Choice) : Bool :=
+  !sorted || !pod.ranges.isEmpty || (ipsOfKey s (keyOf pod)).isEmpty ||
+    pickFirst ((ipsOfKey s (keyOf pod)).map some) ch.first == minIP (ipsOfKey s (keyOf pod))
 
 end Galaxy.Plugin.C06
